@@ -6,8 +6,8 @@
    IS the interpreter of those regenerated skeletons - so a reordered check, a dropped guard, another
    limit constant in one arm or a missing expect_empty breaks a theorem here (besides being caught
    by the correspondence). Only statements, closed by `exact`, each followed by Print Assumptions. *)
-From Coq Require Import NArith List.
-From Rodbus Require Import Base.Outcome Base.Cursor Base.ServerTypes Model.Server Model.ServerFlow Gen.Consts Gen.ServerFlow Proofs.ServerFlowProofs.
+From Coq Require Import NArith List String.
+From Rodbus Require Import Base.Outcome Base.Cursor Base.ServerTypes Model.Server Model.ServerFlow Gen.Consts Gen.ServerFlow Proofs.ServerFlowProofs Proofs.ReaderTies.
 Import ListNotations.
 Local Open Scope N_scope.
 
@@ -24,6 +24,17 @@ Theorem C01_error_reply_broadcast : forall l fr f ex, dest_is_broadcast (f_dest 
   reply_with_error_generic l fr f ex = if error_replies_suppressed_on_broadcast then Ok [] else format_ex l (f_tx fr) (f_dest fr) f ex.
 Proof. exact error_reply_broadcast. Qed.
 Print Assumptions C01_error_reply_broadcast.
+
+(* below the frame level: next_frame keeps the parser state from call to call (a call dropped by select! when a command
+   arrives is re-entered in the middle of a frame) and resets it only when it returns a framing error; the receive
+   buffer's compaction moves the pending bytes BEFORE it rewinds both indices. Regenerated from common/frame.rs and
+   common/buffer.rs; the behavioural side is the byte-stream correspondence of this check and C05/C06. *)
+Theorem C01_reader_loop_shape :
+  Gen.ReaderLoop.next_frame_resets_parser_on_entry = false /\ Gen.ReaderLoop.next_frame_resets_parser_on_error = true /\
+  Gen.ReaderLoop.read_some_compaction =
+    ["let length = self.len()"; "self.buffer.copy_within(self.begin..self.end, 0)"; "self.begin = 0"; "self.end = length"]%string.
+Proof. exact reader_loop_shape. Qed.
+Print Assumptions C01_reader_loop_shape.
 
 (* the skeleton as extracted from the unchanged tree, for the record *)
 Example C01_flow_as_extracted : handle_frame_flow =
